@@ -12,7 +12,6 @@ def setup(c):
 
 PROP = dict(
     id="C15",
-    disabled=True,
     engines=['c15', 'c15w'],
     go_tags=['c11', 'c15'],
     gen_files={},
